@@ -42,6 +42,17 @@ def handle (op : String) (a : Json) : Except String Json := do
     match ← fldOptRat a "tol" with
     | some tol => return valJ (boolJ (insideTol tol b p))
     | none => return valJ (boolJ (inside b p))
+  | "holds_bounds" =>
+    -- executable statement of the bounds clause on the implementation's observed output
+    let g ← getGeom (← fld a "g")
+    return valJ (boolJ (!(HolesInside g) || boundsHolds g (← getBounds (← fld a "b"))))
+  | "holds_features" =>
+    let g ← getGeom (← fld a "g")
+    let fs ← (← fldArr a "fs").mapM fun j => do
+      match ← getArr j with
+      | [n, v] => pure ((← n.getStr?), (← getRat v))
+      | _ => throw "feature arity"
+    return valJ (boolJ (featuresHolds g (← getBounds (← fld a "b")) fs))
   | "holes_inside" =>
     return valJ (boolJ (HolesInside (← getGeom (← fld a "g"))))
   | _ => .error s!"C05: unknown op {op}"
